@@ -100,24 +100,24 @@ Proof. exact render_pep440_in_grammar. Qed.
 (* THE SEMVER RENDERING OF EVERY PEP 440 VERSION IS A FIXED POINT - any number of release numbers: the numbers beyond the third become leading
    numeric pre-release identifiers  X.Y.Z-n4.n5...[epoch.E.][label.N.][post.P.][dev.D][+ids]  (the canonical shape extended by such a prefix);
    zerv's own SemVer parser reads the printed text back to the same value, SemVer -> Zerv -> SemVer returns it unchanged.
-   (local_plain: an all-digit local segment of 2^32 or more, kept as text by PEP 440, is the one spelling excluded - SemVer reads it as a number) *)
+   (an all-digit local segment of 2^32 or more, kept as text by PEP 440, is read as a number by SemVer when it fits u64: `ident_sem` - the rendering is a fixed point all the same) *)
 Theorem c07_extended_canonical_semver_unchanged : forall xs a b c e pl po pd bl,
   Forall u64 xs -> u64 a -> u64 b -> u64 c -> opt_u64 e -> (match pl with Some (_, n) => u64 n | None => True end) -> opt_u64 po -> opt_u64 pd ->
   (match bl with Some l => l <> [] /\ Forall ident_nf l | None => True end) ->
   exists z, zerv_of_semver (ext_semver xs a b c e pl po pd bl) = Some z /\ semver_of_zerv z = ext_semver xs a b c e pl po pd bl.
 Proof. exact ext_roundtrip. Qed.
 
-Theorem c07_semver_rendering_of_pep440_fixed_point : forall p, pep_nf p -> local_plain p ->
+Theorem c07_semver_rendering_of_pep440_fixed_point : forall p, pep_nf p ->
   let sv := semver_of_zerv (zerv_of_pep p) in
-  sv = ext_semver (skipn 3 (p_release p)) (r0 p) (r1 p) (r2 p) (f_epoch p) (f_pre p) (p_post_num p) (p_dev_num p) (f_build p) /\
+  sv = ext_semver (skipn 3 (p_release p)) (r0 p) (r1 p) (r2 p) (f_epoch p) (f_pre p) (p_post_num p) (p_dev_num p) (option_map (map ident_sem) (p_local p)) /\
   semver_parse (semver_print sv) = Some sv /\
   exists z, zerv_of_semver sv = Some z /\ semver_of_zerv z = sv.
-Proof. exact pep_semver_rendering_fixed_point. Qed.
+Proof. exact pep_semver_rendering_fixed_point_all. Qed.
 
-(* at the command, for every accepted PEP 440 string, with the input format given or auto-detected *)
-Theorem c07_render_pep440_to_semver_fixed_point : forall s p, pep_parse s = Some p -> local_plain p ->
+(* at the command, for EVERY accepted PEP 440 string, with the input format given or auto-detected *)
+Theorem c07_render_pep440_to_semver_fixed_point : forall s p, pep_parse s = Some p ->
   exists t, render_cmd FPep440 FSemver [] s = OOk t /\ render_cmd FSemver FSemver [] t = OOk t /\ render_cmd FAuto FSemver [] t = OOk t.
-Proof. exact render_pep_to_semver_fixed_point. Qed.
+Proof. exact render_pep_to_semver_fixed_point_all. Qed.
 
 (* non-vacuity: 1!1.2.3.4.5rc6.dev7+ab  ->  1.2.3-4.5.epoch.1.rc.6.dev.7+ab  ->  itself *)
 Example c07_ex_four_release_numbers :
